@@ -22,3 +22,6 @@ package assets
 
 //@ interface Channel.Schemes
 //@   pure
+
+//@ interface Field.Key
+//@   pure
